@@ -173,7 +173,8 @@ pub fn render_line(l: &LineT, vals: &[String]) -> String {
         None => String::new(),
     };
     let vals = vals.join(", ");
-    let c = if l.comment.is_empty() { String::new() } else { format!(" # {}", l.comment) };
+    // `{HASH}` in a shape comment stands for a '#' inside the comment text
+    let c = if l.comment.is_empty() { String::new() } else { format!(" # {}", l.comment.replace("{HASH}", "#")) };
     match l.kind {
         'U' => format!("{}CONSUMO, {}, {}, {}{}", idp, l.a, l.b, vals, c),
         'P' => format!("{}PRODUCCION, {}, {}{}", idp, l.a, vals, c),
